@@ -28,11 +28,35 @@ theorem line_total (box : Bound α) (hb : BoxOK box) (isOpen : Bool) (inp : List
 /-- Segment level, closed mode: an accepted segment is exactly the part of the segment inside the
     closed box, a rejected one has no point inside. -/
 theorem segLoop_closed_spec (box : Bound α) (hb : BoxOK box) (a b : Pt α) :
-    (match segLoop box 8 a b (bitCode box a) (bitCode box b) with
+    (match segLoop box false 8 a b (bitCode box a) (bitCode box b) 0 0 with
      | .accept a' b' _ => InBox box a' ∧ InBox box b' ∧ OnSeg a b a' ∧ OnSeg a b b' ∧
          ∀ q, OnSeg a b q → (InBox box q ↔ OnSeg a' b' q)
      | .reject => ∀ q, OnSeg a b q → ¬ InBox box q
      | .stuck => False) := segLoop_closed_spec' box hb a b
+
+/-- THE ROUNDING GUARDS CHANGE NOTHING over an ordered field.  clip.line clips an end point at most
+    twice and then snaps it onto the box (`clampToBound`, added after finding
+    C07-corner-rounding-nontermination), and with the open bound keeps a far end that is a vertex on the
+    boundary instead of recomputing it.  Started as the outer loop starts it, with either option, the
+    model's inner loop equals the loop without counters, clamp branch and own-intersection arm
+    (`segLoopU`, OrbProofs/ClipLoop.lean): the clamp branch is unreachable and `intersect` returns that
+    vertex — so every theorem of this file speaks about the code as it is. -/
+theorem segLoop_guard_unused (box : Bound α) (hb : BoxOK box) (isOpen : Bool) (a b : Pt α) :
+    segLoop box isOpen 8 a b (if isOpen then bitCodeOpen box a else bitCode box a)
+        (if isOpen then bitCodeOpen box b else bitCode box b) 0 0 =
+      segLoopU box 8 a b (if isOpen then bitCodeOpen box a else bitCode box a)
+        (if isOpen then bitCodeOpen box b else bitCode box b) := segLoop_guard_unused' box hb isOpen a b
+
+/-- TOTALITY FOR ANY ARITHMETIC (no exactness, no hypothesis on the box): whatever `+ - * / < ≤` do on
+    the coordinate type — `Float` with its rounding, NaN and infinities included — the inner loop ends
+    within its 8 rounds (at most two clips and one snap per end) and `line` returns a value. -/
+theorem line_total_any {β : Type} [Add β] [Sub β] [Mul β] [Div β] [LT β] [LE β] [DecidableLT β]
+    [DecidableLE β] [BEq β] [Min β] [Max β] (box : Bound β) (isOpen : Bool) (inp : List (Pt β)) :
+    ∃ out, line box isOpen inp = some out := line_total_any' box isOpen inp
+
+/-- … in particular on the floats the implementation runs on. -/
+theorem line_total_float (box : Bound Float) (isOpen : Bool) (inp : List (Pt Float)) :
+    ∃ out, line box isOpen inp = some out := line_total_any' box isOpen inp
 
 /-- Every output vertex is inside the closed box (both modes). -/
 theorem clip_vertices_in_box (box : Bound α) (hb : BoxOK box) (isOpen : Bool) (inp : List (Pt α))
